@@ -98,9 +98,10 @@ class ClassInfo:
 
 
 class Repo:
-    def __init__(self, root, package='pmutt'):
+    def __init__(self, root, package='pmutt', overrides=None):
         self.root = os.path.abspath(root)
         self.package = package
+        self.overrides = overrides or {}
         self.modules = {}
         self.consulted = set()
         pkgdir = os.path.join(self.root, package)
@@ -118,8 +119,11 @@ class Repo:
                 if parts[-1] == '__init__':
                     parts = parts[:-1]
                 name = '.'.join(parts)
-                with open(path, encoding='utf-8') as fh:
-                    text = fh.read()
+                if rel in self.overrides:
+                    text = self.overrides[rel]
+                else:
+                    with open(path, encoding='utf-8') as fh:
+                        text = fh.read()
                 try:
                     self.modules[name] = Module(name, path, rel, text)
                 except SyntaxError as e:
